@@ -296,14 +296,14 @@ PROPS["C20"] = {
     "quick": r"^VerifC20_", "thorough": r"^VerifC20T?_",
     "race_g": True,
     "bounds": {"invocations": 2, "entry_points": ["pkg.ValidatePattern (cold and warm cache, same/different pattern)", "pkg.MergeErrors + validation error constructors", "http.ErrorEncoder closure (nil and custom formatter)",
-                                                  "http.ResponseEncoder/ResponseDecoder", "mounted muxer: ServeHTTP/Vars/ResolvePattern from handlers and from a mux.Use middleware (before routing)", "pkg validation error constructors on one field name (sync.Map modelled)", "middleware samplers (fixed, adaptive with 1-3 window sizes and 0-2 earlier requests)", "generated handler NewIntsHandler of design v1 (valid, invalid and failing requests mixed)"]},
+                                                  "http.ResponseEncoder/ResponseDecoder", "mounted muxer: ServeHTTP/Vars/ResolvePattern from handlers and from a mux.Use middleware (before routing)", "pkg validation error constructors on one field name (sync.Map modelled)", "middleware samplers (fixed, adaptive with 1-3 window sizes and 0-2 earlier requests)", "http text decoder into []byte (pooled buffers)", "ResponseEncoder Accept negotiation under schedules with one preemption of the first request (after an earlier request)", "generated handler NewIntsHandler of design v1 (valid, invalid and failing requests mixed)"]},
     "assumptions": ["sync.Mutex/RWMutex/atomic follow the Go memory model; two accesses are ordered iff they hold a common mutex, at least one in write mode, or both are atomic",
                     "the two invocations are executed one after the other by the executor; conflicts are computed on the recorded accesses (loads, stores, map reads/writes of cells that existed before the invocations)"],
-    "outside": ["schedules of the Go scheduler at large, 3-64 goroutines", "chi internals beyond the accesses the two invocations perform, net/http itself", "StreamCanceler, SkipResponseWriter, websocket (goroutines, channels: unsupported by the executor)",
+    "outside": ["schedules with more than one preemption or more than two requests, 3-64 goroutines", "chi internals beyond the accesses the two invocations perform, net/http itself", "StreamCanceler, SkipResponseWriter, websocket (goroutines, channels: unsupported by the executor)",
                 "designs other than v1 for the generated-handler entry"],
-    "explanation": "Not a schedule exploration: for each per-request entry point the executor runs two invocations with independent symbolic inputs from one constructed state, records every access to pre-existing memory with the locks held, and the check asserts (a) no pair of accesses of the two invocations conflicts without a common ordering mutex (a conflict is replayed natively with two goroutines under go test -race), and (b) each invocation's observable result is a function of its own inputs only (decided by the SMT solver for all input values).",
+    "explanation": "Mostly not a schedule exploration (one harness explores schedules with a single preemption of the first invocation at its synchronisation operations): for each per-request entry point the executor runs two invocations with independent symbolic inputs from one constructed state, records every access to pre-existing memory with the locks held, and the check asserts (a) no pair of accesses of the two invocations conflicts without a common ordering mutex (a conflict is replayed natively with two goroutines under go test -race), and (b) each invocation's observable result is a function of its own inputs only (decided by the SMT solver for all input values).",
     "manifest": {
-        "text": "Partial. Sharing analysis by symbolic execution of two invocations per entry point (runtime helpers and one generated handler): absence of unordered conflicting accesses to state shared between requests, and per-request isolation of results for all input values. A reported conflict is confirmed by the Go race detector on a native two-goroutine replay before it is reported. It does not explore schedules or load.",
+        "text": "Partial. Sharing analysis by symbolic execution of two invocations per entry point (runtime helpers and one generated handler): absence of unordered conflicting accesses to state shared between requests, and per-request isolation of results for all input values. A reported conflict is confirmed by the Go race detector on a native two-goroutine replay before it is reported. Schedules are explored only in the bounded form of one preemption of one of two invocations (verifInterleave); load is not.",
         "note": "Trusted: gosym executor (access recording, lock model), z3, the race detector for confirmation. One genuine race found by this check (ErrorEncoder) was repaired, see known_findings.json.",
         "technique": "bounded symbolic execution of two invocations from go/ssa with access/lockset recording; SMT decides the isolation assertions; conflicts replayed under go test -race",
     },
